@@ -89,7 +89,13 @@ impl AuthorHeads {
             }
         }
         let encoded = postcard::to_stdvec(&items)?;
-        debug_assert!(size_limit.map(|s| encoded.len() <= s).unwrap_or(true));
+        if let Some(size_limit) = size_limit {
+            // even the empty list takes one byte
+            anyhow::ensure!(
+                encoded.len() <= size_limit,
+                "size limit of {size_limit} bytes is too small to encode any author heads"
+            );
+        }
         Ok(encoded)
     }
 
